@@ -45,8 +45,8 @@ THREAD_KINDS = ["Auto:cache", "Auto:nocache", "AutoHQ:nocache", "ReusableHyper",
 
 
 @st.composite
-def pools(draw, k):
-    sizes_n = draw(st.lists(st.integers(2, 9), min_size=k, max_size=k, unique=True))
+def pools(draw, k, lo=2, hi=9):
+    sizes_n = draw(st.lists(st.integers(lo, hi), min_size=k, max_size=k, unique=True))
     pool = []
     for n in sizes_n:
         pool.append(
@@ -62,12 +62,22 @@ def pools(draw, k):
 
 @st.composite
 def seq_cases(draw):
-    pool = draw(pools(draw(st.integers(3, 4))))
+    kind = draw(st.sampled_from(KINDS))
+    cutoff = draw(st.sampled_from([0, 0, 30, None]))
+    big = kind in ("preset:auto", "Auto:cache", "Auto:nocache") and draw(st.booleans())
+    if big:
+        # large enough for the default hardness cutoff (250), so that the
+        # module level 'auto' preset itself takes its hyper-optimizer branch
+        pool = draw(pools(3, 12, 17))
+        if kind != "preset:auto":
+            cutoff = None
+    else:
+        pool = draw(pools(draw(st.integers(3, 4))))
     return {
         "mode": "seq",
         "pool": pool,
-        "kind": draw(st.sampled_from(KINDS)),
-        "cutoff": draw(st.sampled_from([0, 0, 30, None])),
+        "kind": kind,
+        "cutoff": cutoff,
         "calls": draw(
             st.lists(
                 st.tuples(st.integers(0, len(pool) - 1), st.sampled_from(["search", "call", "tree", "path"])),
@@ -187,7 +197,12 @@ def run_seq(spec):
     hyper_branch = spec["kind"].startswith(("Auto", "Reusable")) and (
         spec["kind"].startswith("Reusable") or spec.get("cutoff") == 0
     )
-    return Outcome(viol, len(seen) >= 2 and hyper_branch, ["mode=seq", f"kind={spec['kind']}"])
+    big = min(len(net["inputs"]) for net in spec["pool"]) >= 12
+    hyper_branch = hyper_branch or big
+    return Outcome(
+        viol, len(seen) >= 2 and hyper_branch,
+        ["mode=seq", f"kind={spec['kind']}"] + (["big_networks_default_cutoff"] if big else []),
+    )
 
 
 # ---------------------------------------------------------------------------
